@@ -26,10 +26,15 @@ from mc.refs import bpsynth as bp
 NEEDS_BRIDGEPOINT = True
 BUDGET_S = {'quick': 1200, 'thorough': 4000}
 ASSUMPTIONS = [
-    'models: Simple_Model.xtuml (all 326 rows in file order; global data types from the loader) and synthesised diagrams '
-    '(bpsynth.rich_diagram, bpsynth.family); unformalized and derived (composed) relationships, imported classes and '
-    'structured types are outside the abstract form and not generated',
-    'edit scripts of length <= 2 (quick) / 3 (thorough) on Simple_Model and <= 1 / 2 on the rich diagram; values per site come '
+    'models: Simple_Model.xtuml (all 326 rows in file order; global data types from the loader); "simple2" = the same plus a '
+    'sibling component, a component nested in the package "Classes" and a package reference (EP_PKGREF) to the sibling\'s '
+    'package; synthesised diagrams (bpsynth.rich_diagram, bpsynth.packaging_diagram, bpsynth.family); unformalized and '
+    'derived (composed) relationships, imported classes and structured types are outside the abstract form and not generated',
+    'scope: an element is in a component when the component is reached from its package / component through parents '
+    '(R8000, R8001, R8003) and through packages that refer to a package on the way (R1402); every component (outer, nested, '
+    'sibling) is built by name; chains of references (a referring package that is itself only referred to) are not generated',
+    'edit scripts of length <= 2 (quick) / 3 (thorough) on Simple_Model and <= 1 / 2 on simple2, the rich and the packaging '
+    'diagram (there every class and relationship is moved into every package / component); values per site come '
     'from small palettes (VERIF_SEED selects among equivalent palettes of names, phrases and numbers)',
     'identifier attribute lists and (referential, identifying) key pairs are compared as sets, attribute order exactly, '
     'types upper-cased; the order of definitions inside the serialized text is not compared',
@@ -42,6 +47,10 @@ ASSUMPTIONS = [
     'gen_sql_schema.main (argv route, 0.25 s per call for parsing the ooaofooa schema) runs in every state of depth <= 1 '
     '(thorough: <= 2); in deeper states xtuml.persist_database, the only step main adds, is called directly; all four '
     'option combinations each time',
+    'live edits: on the loaded start model of the packaging diagram and of simple2 (thorough: also rich and Simple_Model) '
+    'every edit of the menu that has an API-level form (rename / retype attribute, move class or relationship, multiplicity, '
+    'conditionality, phrase, number, toggle derived) is applied with setattr / relate / unrelate / new / delete between two '
+    'mk_component rounds on the SAME metamodel object; the second round must equal expected_schema of the edited diagram',
     'row orders: reversal of the whole file in every state; every rotation of the file and every permutation of every '
     'group of <= 6 rows (rows of one table belonging to one class / relationship, and whole small tables) in the initial '
     'states; permutations of the groups of the edited tables in every single-edit state (groups of <= 3 rows in quick); the '
@@ -62,9 +71,14 @@ UNSUPPORTED = ['inst_ref<Object>', 'date']
 
 # (base, palette level, edit depth, main() up to depth, reversed file up to depth, permutations: max group in single-edit states)
 PLAN = {
-    'quick': [('simple', 'quick', 2, 1, 99, 3), ('rich', 'quick', 1, 0, 99, 0)],
-    'thorough': [('simple', 'quick', 3, 1, 2, 6), ('simple', 'full', 2, 1, 99, None), ('rich', 'lean', 2, 1, 99, 4)],
+    'quick': [('pack', 'lean', 1, 1, 99, 0), ('simple2', 'quick', 1, 0, 99, None), ('simple', 'quick', 2, 1, 99, 3),
+              ('rich', 'quick', 1, 0, 99, 0)],
+    'thorough': [('pack', 'quick', 1, 1, 99, 4), ('simple2', 'quick', 2, 1, 99, None), ('simple', 'quick', 3, 1, 2, 6), ('simple', 'full', 2, 1, 99, None), ('rich', 'lean', 2, 1, 99, 4)],
 }
+
+# start models on which every API-level ("live") edit of the menu is applied to the loaded metamodel
+LIVE = {'quick': [('pack', 'lean'), ('simple2', 'quick')],
+        'thorough': [('pack', 'quick'), ('simple2', 'quick'), ('rich', 'lean'), ('simple', 'full')]}
 
 TOUCHED = {
     'rename_attr': ['O_ATTR'], 'retype_attr': ['O_ATTR', 'S_DT'], 'move_attr': ['O_ATTR'], 'add_attr': ['O_ATTR', 'O_BATTR'],
@@ -91,7 +105,7 @@ class SchemaModel(bp.EditModel):
         self.reverse_depth = reverse_depth
 
     def case(self, hist, op):
-        return dict(base=self.base, hist=hist, op=op, tier=self.tier, seed=self.seed, level=self.level)
+        return dict(base=self.name, hist=hist, op=op, tier=self.tier, seed=self.seed, level=self.level)
 
     # -- menu -------------------------------------------------------------------
     def menu(self, w):
@@ -161,16 +175,18 @@ class SchemaModel(bp.EditModel):
     def homes(self, d):
         tops = sorted(c.id for c in d.conts.values() if c.kind == 'pkg' and c.parent is None)
         comps = sorted(c.id for c in d.conts.values() if c.kind == 'comp')
-        if self.full:
+        if self.full or self.name == 'pack':
             return [None] + sorted(d.conts)
         inner = sorted(c.id for c in d.conts.values() if c.kind == 'pkg' and c.parent in comps)
-        if self.lean:
-            return tops[:1] + comps[:1]
-        return tops[:1] + comps[:1] + inner[-1:]
+        out = tops[:1] + comps[:1] + ([] if self.lean else inner[-1:])
+        for h in bp.special_homes(d):       # packages of nested components, referenced packages
+            if h not in out:
+                out.append(h)
+        return out
 
     # -- the oracle ------------------------------------------------------------
-    def check(self, ctx, w, hist, routes=None, perm=None):
-        check_state(ctx, self, w, hist, routes, perm)
+    def check(self, ctx, w, hist, routes=None, perm=None, live=None):
+        check_state(ctx, self, w, hist, routes, perm, live)
 
 
 def scopes(d):
@@ -255,16 +271,18 @@ def allowed_change(op, dp, dc):
     return out
 
 
-def check_state(ctx, model, w, hist, routes=None, perm=None):
+def check_state(ctx, model, w, hist, routes=None, perm=None, live=None):
     '''
     Compare every route of the implementation with expected_schema in one state.
     routes: None = by depth; 'all' = everything (replay).  perm: rows already permuted by the caller
-    (only the build route is compared then; violations carry the roworder signature).
+    (only the build route is compared then; violations carry the roworder signature).  live: an edit applied
+    to the LOADED metamodel through the xtuml API between two mk_component rounds on the same metamodel object.
     '''
     import xtuml
     from bridgepoint import ooaofooa
     d = w.d
-    deep = routes == 'all' or len(hist) <= model.main_depth
+    depth = model.depth_of(hist)
+    deep = routes == 'all' or depth <= model.main_depth
     text = w.text()
     key = core.h64(text)
     ctx.distinct('inputs', key)
@@ -273,13 +291,13 @@ def check_state(ctx, model, w, hist, routes=None, perm=None):
     ctx.count('states_checked')
 
     def bad(route, scope, derived, fam, kind, msg, exp=None, obs=None, line=None):
-        case = dict(base=model.base, hist=hist, tier=model.tier, seed=model.seed, level=model.level,
-                    op=['probe', route, scope[1], derived], perm=perm)
+        case = dict(base=model.name, hist=hist, tier=model.tier, seed=model.seed, level=model.level,
+                    op=['probe', route, scope[1], derived], perm=perm, live=live)
         ctx.violation('c14:%s:%s:%s' % (route, fam, kind), case,
                       '%s after %s, %s, derived_attributes=%s, route %s: %s' %
-                      (model.base, json.dumps(hist), 'component %s' % scope[1] if scope[1] else 'whole model', derived,
+                      (model.name, json.dumps(hist), 'component %s' % scope[1] if scope[1] else 'whole model', derived,
                        route, msg), exp, obs,
-                      unit_test=unit_test(model.base, w, scope[1], derived, route, line))
+                      unit_test=unit_test(model.base, w, scope[1], derived, route, line, live))
 
     def compare(route, scope, derived, exp, obs):
         diffs = bp.diff_schema(exp, obs)
@@ -301,11 +319,12 @@ def check_state(ctx, model, w, hist, routes=None, perm=None):
     combos = [(s, der) for s in scopes(d) for der in (False, True)]
     expected = dict(((s[0], der), bp.expected_schema(d, s[0], der)) for s, der in combos)
 
-    def build_all(txt, route):
+    def build_all(txt, route, mm=None):
         '''mk_component on one loaded metamodel for every combination -> {(scope id, derived): (component, obs)}.'''
         out = {}
-        loader = guarded(route, (None, None), False, lambda: bp.load_model(txt))
-        mm = guarded(route, (None, None), False, lambda: loader.build_metamodel()) if loader else None
+        if mm is None:
+            loader = guarded(route, (None, None), False, lambda: bp.load_model(txt))
+            mm = guarded(route, (None, None), False, lambda: loader.build_metamodel()) if loader else None
         if mm is None:
             return out
         for s, der in combos:
@@ -320,6 +339,33 @@ def check_state(ctx, model, w, hist, routes=None, perm=None):
             if res:
                 out[(s[0], der)] = res
         return out
+
+    if live is not None:
+        # build, edit the loaded metamodel through the xtuml API, build again from the same object
+        w2 = w.clone()
+        w2.apply(live)
+        mm = guarded('live', (None, None), False, lambda: bp.load_model(text).build_metamodel())
+        if mm is None:
+            return
+        built = build_all(None, 'live-before', mm=mm)
+        for s, der in combos:
+            if (s[0], der) in built:
+                ctx.count('traces')
+                compare('live-before', s, der, expected[(s[0], der)], built[(s[0], der)][1])
+        bp.live_apply(mm, d, w2.d, live)
+        if bp.extract(bp.tables_of_metamodel(mm)) != w2.d:
+            raise core.HarnessError('live edit %r after %r does not give the population of the mirrored diagram' % (live, hist))
+        combos[:] = [(s, der) for s in scopes(w2.d) for der in (False, True)]
+        expected.clear()
+        expected.update(((s[0], der), bp.expected_schema(w2.d, s[0], der)) for s, der in combos)
+        built = build_all(None, 'live', mm=mm)
+        for s, der in combos:
+            if (s[0], der) in built:
+                ctx.count('traces')
+                ctx.count('live_runs')
+                compare('live', s, der, expected[(s[0], der)], built[(s[0], der)][1])
+        ctx.count('live:' + live[0])
+        return
 
     if perm is not None:
         built = build_all(text, 'roworder')
@@ -354,16 +400,15 @@ def check_state(ctx, model, w, hist, routes=None, perm=None):
             compare('reload', s, der, expected[(s[0], der)], obs2)
 
     # difference to the parent state stays inside the edited item
-    if hist and ok:
+    if depth > 0 and ok:
         parent = model.build(hist[:-1])
         allowed = allowed_change(hist[-1], parent.d, d)
         for s, der in combos:
             if (s[0], der) not in built:
                 continue
-            try:
-                before = bp.expected_schema(parent.d, s[0], der)
-            except KeyError:
+            if s[0] is not None and s[0] not in parent.d.conts:
                 continue
+            before = bp.expected_schema(parent.d, s[0], der)
             changed = bp.changed_items(before, built[(s[0], der)][1])
             ctx.count('locality_checks')
             if changed:
@@ -376,7 +421,7 @@ def check_state(ctx, model, w, hist, routes=None, perm=None):
 
     # every order of the rows: the reversed file
     built_rev = {}
-    if routes == 'all' or len(hist) <= model.reverse_depth:
+    if routes == 'all' or depth <= model.reverse_depth:
         built_rev = build_all(bp.render(bp.reversed_rows(w.rows)), 'reversed')
     for s, der in combos:
         if (s[0], der) in built_rev:
@@ -407,7 +452,23 @@ def check_state(ctx, model, w, hist, routes=None, perm=None):
                 compare('main', s, der, expected[(s[0], der)], obs)
 
 
-def unit_test(base, w, comp_name, derived, route, line):
+def unit_test(base, w, comp_name, derived, route, line, live=None):
+    if live is not None:
+        lines = bp.snippet_model(base, w)
+        lines += ['import xtuml',
+                  'from bridgepoint import ooaofooa',
+                  'l = ooaofooa.ModelLoader()',
+                  'l.input(text)',
+                  'm = l.build_metamodel()',
+                  'c_c = lambda: m.select_any("C_C", lambda s: s.Name == %r)' % comp_name,
+                  'for c in [None] + list(m.select_many("C_C")):',
+                  '    ooaofooa.mk_component(m, c)                # first round, whole model and every component',
+                  '# edit of the loaded metamodel: %r' % (live,)]
+        lines += bp.live_snippet(w.d, live)
+        lines += ['c = ooaofooa.mk_component(m, c_c(), %r)          # second round, same metamodel' % derived,
+                  'print(xtuml.serialize_schema(c) + xtuml.serialize_unique_identifiers(c))',
+                  '# compare the printed definitions with the expected value recorded in this replay file']
+        return '\n'.join(lines)
     if route == 'reversed':
         lines = ['text = %r    # the INSERT statements of the model in reverse order' % bp.render(bp.reversed_rows(w.rows))]
     else:
@@ -440,25 +501,40 @@ def unit_test(base, w, comp_name, derived, route, line):
 def perm_tasks(ctx, model, max_group_initial, max_group_edit):
     '''[(base, hist, label, positions, [perm...])...] -- chunks of permutations to run (max_group_edit 0: initial state only).'''
     tasks = []
-    w0 = model.build([])
-    states = [([], None)]
+    h0 = list(model.prefix)
+    w0 = model.build(h0)
+    states = [(h0, None)]
     for op in model.menu(w0) if max_group_edit else []:
-        states.append(([op], TOUCHED.get(op[0])))
+        states.append((h0 + [op], TOUCHED.get(op[0])))
     for hist, tables in states:
         w = model.build(hist)
-        groups = bp.row_groups(w.rows, tables, max_group_initial if not hist else max_group_edit)
+        groups = bp.row_groups(w.rows, tables, max_group_initial if hist == h0 else max_group_edit)
         for key, pos in groups:
             perms = [p for p in itertools.permutations(range(len(pos))) if list(p) != list(range(len(pos)))]
             perms = explorer.rotate(perms, ctx.seed)
             for i in range(0, len(perms), 24):
-                tasks.append(dict(base=model.base, level=model.level, hist=hist, kind='group', label=repr(key), pos=pos,
+                tasks.append(dict(base=model.name, level=model.level, hist=hist, kind='group', label=repr(key), pos=pos,
                                   perms=[list(p) for p in perms[i:i + 24]]))
     n = len([r for r in w0.rows if not r.g])
     ks = list(range(1, n))
     for i in range(0, len(ks), 12):
-        tasks.append(dict(base=model.base, level=model.level, hist=[], kind='rotate', label='rotation', pos=[],
+        tasks.append(dict(base=model.name, level=model.level, hist=h0, kind='rotate', label='rotation', pos=[],
                           perms=ks[i:i + 12]))
     return tasks
+
+
+def live_tasks(model):
+    '''One task per edit of the menu that has an API-level form, applied to the loaded start model.'''
+    h0 = list(model.prefix)
+    ops = [op for op in model.menu(model.build(h0)) if bp.live_supported(op)]
+    return [dict(base=model.name, level=model.level, hist=h0, live=op) for op in ops]
+
+
+def run_live_task(sub, task):
+    model = SchemaModel(task['base'], sub.tier, sub.seed, level=task['level'])
+    explorer.guarded(sub, model, task['hist'], ['live', task['live']],
+                     lambda: check_state(sub, model, model.build(task['hist']), task['hist'], live=task['live']))
+    return None
 
 
 def permute(w, perm):
@@ -501,22 +577,23 @@ def run(ctx):
     if problems:
         raise core.HarnessError('bpsynth self-test failed: ' + '; '.join(problems))
     bp.load_model('')
-    for b in ('simple', 'rich'):
+    for b in ('simple', 'rich', 'pack'):
         bp.base_world(b)
+    bp.prefix_of('simple2')
     fam = [n for n, _ in bp.family()]
     bp.base_world('family:' + fam[0])
 
     # E2 first: the synthesised one-relationship diagrams (cheap, and the smallest counterexamples)
     ctx.pmap(run_family_task, ['regen:simple'] + explorer.rotate(fam, ctx.seed), chunk=4)
     ctx.sample(dict(family_member=fam[len(fam) // 2]))
-    if ctx.violations:
+    if new_violations(ctx):
         return
 
     total = 0
     for base, level, depth, main_depth, reverse_depth, perm_edit in PLAN[ctx.tier]:
         model = SchemaModel(base, ctx.tier, ctx.seed, main_depth=main_depth, level=level, reverse_depth=reverse_depth)
         label = '%s/%s' % (base, level)
-        w0 = model.build([])
+        w0 = model.build(list(model.prefix))
         err = bp.selfcheck_world(w0) or '; '.join(w0.d.check())
         ctx.require(not err, 'base model %s: %s' % (base, err))
         loaded = bp.extract(bp.tables_of_metamodel(bp.load_model(w0.text()).build_metamodel()))
@@ -532,7 +609,11 @@ def run(ctx):
             tasks = perm_tasks(ctx, model, 6, perm_edit)
             ctx.pmap(run_perm_task, tasks, chunk=1)
             print('  %s: permutation tasks=%d' % (label, len(tasks)))
-        if ctx.violations:
+        if (base, level) in LIVE[ctx.tier]:
+            tasks = live_tasks(model)
+            ctx.pmap(run_live_task, tasks, chunk=4)
+            print('  %s: live edits=%d' % (label, len(tasks)))
+        if new_violations(ctx):
             return          # the property is already refuted; the remaining stages would only add more of the same
 
     # vacuity guards
@@ -549,6 +630,14 @@ def run(ctx):
     ctx.require(ctx.n('main_runs') >= 100, 'gen_sql_schema.main ran only %d times' % ctx.n('main_runs'))
     ctx.require(ctx.nd('outcomes') >= 200, 'too few distinct schemas observed (%d)' % ctx.nd('outcomes'))
     ctx.require(ctx.n('locality_nonempty') >= 100, 'locality checks saw no change')
+    for kind in ('move_elem', 'rename_attr', 'retype_attr', 'set_end'):
+        ctx.require(ctx.n('live:' + kind) >= 1, 'no live (API-level) edit of kind %s ran' % kind)
+
+
+def new_violations(ctx):
+    '''Violations of this run that no open known finding accounts for.'''
+    known = set(e.get('sig') for e in core.load_known(ctx.prop) if e.get('status') == 'known')
+    return [v for v in ctx.violations if v['sig'] not in known]
 
 
 def replay(ctx, case):
@@ -558,7 +647,9 @@ def replay(ctx, case):
 
     def one():
         w = model.build(hist)
-        if perm:
+        if case.get('live'):
+            check_state(ctx, model, w, hist, live=case['live'])
+        elif perm:
             check_state(ctx, model, permute(w, perm), hist, perm=perm)
         else:
             check_state(ctx, model, w, hist, routes='all')
@@ -587,6 +678,8 @@ def coverage(ctx):
         file_rotations=ctx.n('perm:rotate'),
         reversed_runs=ctx.n('reversed_runs'),
         main_runs=ctx.n('main_runs'),
+        live_runs=ctx.n('live_runs'),
+        live_edits=dict((k[5:], v) for k, v in ctx.counts.items() if k.startswith('live:')),
         api_runs=ctx.n('api_runs'),
         locality_checks=ctx.n('locality_checks'),
         edits=dict((k[5:], v) for k, v in ctx.counts.items() if k.startswith('edit:')),
